@@ -348,3 +348,83 @@ def render_unix_date(f):
     return "%s %02d %s %02d:%02d:%02d UTC %04d" % (
         WEEKDAY_ABBR[f["wd"] - 1], f["d"], MONTH_ABBR[f["m"] - 1], f["H"],
         f["M"], f["S"], f["y"])
+
+
+# --------------------------------------------------------------------------
+# month / year offsets: calendar rules with end-of-period clamping
+# (a mixed duration applies its exact part first, then months, then years;
+# each single-month step clamps the day to the month's length; a year step
+# keeps month and day (29 Feb -> 28 Feb), the ordinal day (366 -> 365) or
+# the ISO week and weekday (week 53 -> the year's last week), according to
+# the representation; time of day and zone are untouched)
+
+def parse_designator_duration(text):
+    """{'neg', 'Y', 'M', 'us'} of a designator-notation duration with
+    integer year/month parts, or None."""
+    import re
+    neg = text.startswith("-")
+    body = text.lstrip("+-")
+    m = re.match(r"^P(?:(\d+)Y)?(?:(\d+)M)?(?:(\d+)W)?(?:(\d+)D)?"
+                 r"(?:T(?:(\d+(?:[,.]\d+)?)H)?(?:(\d+(?:[,.]\d+)?)M)?"
+                 r"(?:(\d+(?:[,.]\d+)?)S)?)?$", body)
+    if not m or body in ("P", "PT"):
+        return None
+    y, mo, w, d, hh, mi, ss = m.groups()
+    total = Fraction(0)
+    for val, unit in ((w, "W"), (d, "D"), (hh, "H"), (mi, "M"), (ss, "S")):
+        if val:
+            total += Fraction(val.replace(",", ".")) * UNIT_US[unit]
+    if total.denominator != 1:
+        return None
+    return {"neg": neg, "Y": int(y or 0), "M": int(mo or 0),
+            "us": int(total)}
+
+
+def shift_local(mode, rep, dn, us_of_day, dur):
+    """Apply one duration to a local civil position (day number + time of
+    day in microseconds) held in representation `rep`; returns the new
+    (dn, us_of_day)."""
+    sign = -1 if dur["neg"] else 1
+    total = dn * UNIT_US["D"] + us_of_day + sign * dur["us"]
+    dn, us_of_day = divmod(total, UNIT_US["D"])
+    months, years = sign * dur["M"], sign * dur["Y"]
+    if months:
+        y, m, d = model.from_daynum(mode, dn)
+        for _ in range(abs(months)):
+            m += 1 if months > 0 else -1
+            if m > 12:
+                m, y = 1, y + 1
+            elif m < 1:
+                m, y = 12, y - 1
+            d = min(d, model.days_in_month(mode, m, y))
+        dn = model.to_daynum(mode, y, m, d)
+    if years:
+        if rep == "cal":
+            y, m, d = model.from_daynum(mode, dn)
+            y += years
+            d = min(d, model.days_in_month(mode, m, y))
+            dn = model.to_daynum(mode, y, m, d)
+        elif rep == "ord":
+            y, m, d = model.from_daynum(mode, dn)
+            doy = model.ordinal_of(mode, y, m, d)
+            y += years
+            doy = min(doy, model.days_in_year(mode, y))
+            dn = model.days_before_year(mode, y) + doy - 1
+        else:
+            wy, w, wd = model.week_date(mode, dn)
+            wy += years
+            w = min(w, model.weeks_in_year(mode, wy))
+            dn = model.from_week_date(mode, wy, w, wd)
+    return dn, us_of_day
+
+
+def shift_instant(mode, rep, t_us, off, durations):
+    """Instant t_us, seen in zone `off` minutes and representation `rep`,
+    shifted by each duration in turn; returns the new instant."""
+    local = t_us + off * UNIT_US["M"]
+    days, us_of_day = divmod(local, UNIT_US["D"])
+    dn = model.epoch_daynum(mode) + days
+    for dur in durations:
+        dn, us_of_day = shift_local(mode, rep, dn, us_of_day, dur)
+    return ((dn - model.epoch_daynum(mode)) * UNIT_US["D"] + us_of_day
+            - off * UNIT_US["M"])
